@@ -29,7 +29,8 @@ CLASSES = ["Exception", "OSError", "BaseException", "ConnectionRefusedError", "B
 def required_counters(tier):
     return ["inject:call", "inject:after-sr", "inject:mid-body", "inject:close", "disconnect:RST", "disconnect:CLOSE",
             "close-events", "file-close-events", "outcome:500", "outcome:truncated", "probe-served", "class:Exception",
-            "class:OSError", "class:BaseException", "expose:on", "expose:off", "logsock:on", "logsock:off"]
+            "class:OSError", "class:BaseException", "expose:on", "expose:off", "logsock:on", "logsock:off",
+            "disconnect-before-output"]
 
 
 def base_programs():
@@ -107,12 +108,20 @@ def run_case(case, strat=None):
         return holder["app"](environ, start_response)
 
     adj = {"threads": 2, "expose_tracebacks": case["expose"], "log_socket_errors": case["logsock"], "send_bytes": 1}
+    early = case.get("early_disconnect")
+    if early:
+        # the channel keeps reading while the request executes, so it learns about the
+        # disconnect before the application has produced anything
+        adj["channel_request_lookahead"] = 1
+        prog = dict(prog, steps=[["wait", "gate"]] + list(prog["steps"]))
     w = World(app, strategy=R.make_strategy(strat or {"kind": "np"}), adj_kw=adj, sndbuf=case.get("sndbuf", 600), step_limit=150000)
 
     def pick(environ, n):
         return PROBE if environ["PATH_INFO"] == "/probe" else prog
 
-    holder["app"] = apps.make_app(pick, log, world=w, rid_of=lambda env, n: "probe" if env["PATH_INFO"] == "/probe" else "case")
+    gate = w.Event()
+    holder["app"] = apps.make_app(pick, log, world=w, events={"gate": gate},
+                                  rid_of=lambda env, n: "probe" if env["PATH_INFO"] == "/probe" else "case")
     if case.get("disconnect"):
         kind, k = case["disconnect"]
         w.net.faults[(0, "send", k)] = kind
@@ -123,6 +132,22 @@ def run_case(case, strat=None):
         c = w.connect()
         v = case.get("version", "1.1")
         c.send(("GET /case HTTP/%s\r\nHost: h\r\n\r\n" % v).encode())
+        if early:
+            # wait until the application is running, go away, give the server (virtual)
+            # time to notice, then let the application carry on
+            w.wait_until(lambda: log.count("wait", "case") > 0, timeout=20.0)
+            if early == "RST":
+                c.reset()
+            else:
+                c.close()
+            w.sleep(2.0)
+            gate.set()
+            w.sleep(5.0)
+            out["received"] = c.received
+            out["eof"] = True
+            out["client"] = c
+            done.set()
+            return
         c.wait(lambda cl: _complete(cl, rs))
         # give the server (virtual) time to close the connection if it is going to
         c.wait(lambda cl: cl.eof(), timeout=5.0)
@@ -174,7 +199,7 @@ def judge(case, o, acc):
     prog = dict(case["prog"], exc=case["exc"])
     log = o["log"]
     I = apps.intended(prog, "GET")
-    disconnect = case.get("disconnect")
+    disconnect = case.get("disconnect") or ([case["early_disconnect"], -1] if case.get("early_disconnect") else None)
     wire = o.get("received", b"")
     resps, werr, left = rs.parse_responses(wire, ["GET"], eof=o.get("eof", False))
     # ---- threads survive
@@ -278,6 +303,8 @@ def plan(tier, seed):
     specs = []
     for i in range(shards):
         specs.append({"mode": "inject", "part": i, "parts": shards, "sample": 1, "seed": seed, "schedules": 1 if tier == "quick" else 4})
+    for i in range(4):
+        specs.append({"mode": "early", "part": i, "parts": 4, "schedules": 1 if tier == "quick" else 4, "seed": seed})
     for i in range(16 if tier == "quick" else 32):
         specs.append({"mode": "disconnect", "part": i, "parts": 16 if tier == "quick" else 32, "sample": 1, "seed": seed, "schedules": 1 if tier == "quick" else 4})
     return specs
@@ -307,6 +334,20 @@ def run_shard(spec):
                                 run_and_judge(acc, case, f"{pi}|{label}|{p['steps'] and len(p['steps'])}|{exc}|{expose}|{logsock}|{sch}", strat)
                                 acc.count("inject:" + label)
         acc.sample({"programs": len(progs), "example_injection": injections(progs[3])[2][1]})
+    elif spec["mode"] == "early":
+        k = 0
+        for pi, prog in enumerate(progs):
+            for kind in ("RST", "CLOSE"):
+                k += 1
+                if k % spec["parts"] != spec["part"]:
+                    continue
+                for sch in range(spec.get("schedules", 1)):
+                    case = {"prog": prog, "exc": "Exception", "expose": False, "logsock": bool(k % 2), "version": "1.1",
+                            "early_disconnect": kind}
+                    strat = None if sch == 0 else {"kind": "random", "seed": k * 3 + sch, "p": [0.02, 0.1, 0.3][sch % 3]}
+                    run_and_judge(acc, case, f"{pi}|early|{kind}|{sch}", strat)
+                    acc.count("disconnect-before-output")
+        acc.sample({"early_disconnect": "client goes away while the application runs, before any output (lookahead 1)"})
     else:
         k = 0
         for pi, prog in enumerate(progs):
